@@ -29,7 +29,7 @@ func main() {
 	logger := zap.NewNop()
 
 	srv := server.NewServer()
-	handler := protocol.ServerHandler(newServerDispatcher(srv), nil)
+	handler := didChangeHandler(srv, protocol.ServerHandler(newServerDispatcher(srv), nil))
 
 	stream := jsonrpc2.NewStream(stdrwc{})
 	conn := jsonrpc2.NewConn(stream)
@@ -42,6 +42,21 @@ func main() {
 
 	if err := conn.Err(); err != nil {
 		os.Exit(1)
+	}
+}
+
+// didChangeHandler decodes textDocument/didChange itself so that a change without a range
+// (full replacement) stays distinguishable from an insertion at line 0, character 0.
+func didChangeHandler(srv *server.Server, next jsonrpc2.Handler) jsonrpc2.Handler {
+	return func(ctx context.Context, reply jsonrpc2.Replier, req jsonrpc2.Request) error {
+		if req.Method() != protocol.MethodTextDocumentDidChange {
+			return next(ctx, reply, req)
+		}
+		var params server.DidChangeRawParams
+		if err := json.Unmarshal(req.Params(), &params); err != nil {
+			return next(ctx, reply, req)
+		}
+		return reply(ctx, nil, srv.DidChangeRaw(ctx, &params))
 	}
 }
 
